@@ -130,6 +130,41 @@ func VerifC11_Weights() {
 	zz.Assert("C11.weights.factor_of_current_window", out == int(zz.FloorUF(withRem)))
 }
 
+// VerifC11_WeightsSecondTick: the calculator is STATEFUL across ticks (carried remainder): two consecutive ticks at
+// arbitrary instants t1 <= t2 (same or different repeat windows, on or off the window grid) - the factor applied by
+// the SECOND tick is the one of t2's window, whatever the first tick saw (nothing about the window of an earlier
+// tick may be reused), and the remainder it starts from is the one the first tick left.
+//
+//verif:fp uf
+//verif:ints math
+//verif:unroll 6
+func VerifC11_WeightsSecondTick() {
+	n := zz.Choice("nweights", 3) + 1
+	ws := make([]float64, n)
+	for i := 0; i < n; i++ {
+		ws[i] = zz.Float64("w", i)
+	}
+	c := c11Calculator("a", ws)
+	c.averageWeight = zz.Float64("avgw")
+	t1 := zz.Int64("t1")
+	t2 := zz.Int64("t2")
+	zz.Assume(t1 >= 0)
+	zz.Assume(t2 >= t1)
+	zz.Assume(t2 < 1<<55)
+	c.For(zz.Time(t1))
+	rem1 := c.remainder
+	out := c.For(zz.Time(t2))
+	idx := int(((t2/1_000_000_000 + 62135596800) / 86400) % int64(n))
+	t := zz.Time(t2)
+	slot := float64(t.Sub(t.Truncate(c.repeatWindow)))
+	rate := c.dist.PDF(slot) * c.multiplier
+	rate = rate * ws[idx] / c.averageWeight
+	withRem := rate + rem1
+	zz.Cover("C11.weights2.reached")
+	zz.CoverIf("C11.weights2.window_changed", idx != int(((t1/1_000_000_000+62135596800)/86400)%int64(n)))
+	zz.Assert("C11.weights2.second_tick_uses_its_own_window", out == int(zz.FloorUF(withRem)))
+}
+
 // VerifC11_Normalisation: NewCalculator's multiplier times the probability mass inside [0, window - frequency]
 // equals volume * frequency (exactly, in real arithmetic with CDF/Erfc uninterpreted), sigma <= 0 is rejected, and
 // the mean weight is the arithmetic mean of the weights.
